@@ -1,6 +1,7 @@
 fn main() {
     let mut cfgs = vec![];
     cfgq::add(&mut cfgs);
+    cfgw::add(&mut cfgs);
     let reg = sut::Registry { cfgs, zeroize: sut::ZEROIZE, sweep: false };
     std::process::exit(checks::main_with(reg, "mc-zquick"));
 }
